@@ -253,7 +253,7 @@ pub fn reader_event(data: &[u8], sh: bool, sched: &[Resp], is_async: bool, cap: 
     }
     let pm = message_session(data, sh, sched, is_async, cfg);
     json!({"op": "reader", "async": is_async, "sh": sh, "cap": cap.unwrap_or(0), "stream": proj::bytes(data), "sched": sched_json(sched),
-           "flt": proj::opt(&cfg, |c| proj::filter_config(c)), "log": log, "sp": sp, "pm": pm})
+           "flt": proj::opt(&cfg, |c| proj::filter_config(c)), "log": log, "sp": sp, "spe": parse_ended, "pm": pm})
 }
 /// C08 event: the same bytes and the same schedule through both readers
 pub fn pair_event(data: &[u8], sh: bool, sched: &[Resp]) -> J {
